@@ -348,3 +348,19 @@ pub fn check_party_outputs(
 pub fn seeds3(rng: &mut Rng) -> [[u8; 16]; 3] {
     [rng.seed16(), rng.seed16(), rng.seed16()]
 }
+
+/// Total size in bits of the values one execution of the main graph computes (a cost estimate:
+/// the rare generated program whose compiled graph works on hundreds of megabits takes minutes
+/// per execution).
+pub fn work_bits(c: &Context) -> u64 {
+    c.get_main_graph()
+        .map(|g| {
+            g.get_nodes()
+                .iter()
+                .map(|n| n.get_type().ok().and_then(|t| ciphercore_base::data_types::get_size_in_bits(t).ok()).unwrap_or(0))
+                .fold(0u64, |a, b| a.saturating_add(b))
+        })
+        .unwrap_or(0)
+}
+
+pub const HEAVY_WORK_BITS: u64 = 1 << 22;
